@@ -39,8 +39,8 @@ def setDiff {α : Type} [BEq α] (a b : List α) : List α := a.filter (fun k =>
 /-- `list(range(a, b))` -/
 def rangeInt (a b : Int) : List Int := (List.range (b - a).toNat).map (fun (k : Nat) => a + (k : Int))
 
-/-- `for x in xs: body` over the loop-carried variables `σ` (no `break`/`continue`/`return` inside) -/
-def forEach {α σ : Type} (xs : List α) (body : α → σ → Except Py.Exc σ) (s : σ) : Except Py.Exc σ :=
+/-- `for x in xs: body` over the loop-carried variables `σ` (no `break`/`continue`/`return` inside); any exception type `ε` -/
+def forEach {α σ ε : Type} (xs : List α) (body : α → σ → Except ε σ) (s : σ) : Except ε σ :=
   match xs with
   | [] => .ok s
   | x :: rest =>
@@ -49,7 +49,7 @@ def forEach {α σ : Type} (xs : List α) (body : α → σ → Except Py.Exc σ
     | .ok s' => forEach rest body s'
 
 /-- `for x in xs: body` where the body may `return r` (`.inl r`: leave the function with `r`; `.inr s`: next iteration) -/
-def forEachRet {α σ ρ : Type} (xs : List α) (body : α → σ → Except Py.Exc (ρ ⊕ σ)) (s : σ) : Except Py.Exc (ρ ⊕ σ) :=
+def forEachRet {α σ ρ ε : Type} (xs : List α) (body : α → σ → Except ε (ρ ⊕ σ)) (s : σ) : Except ε (ρ ⊕ σ) :=
   match xs with
   | [] => .ok (.inr s)
   | x :: rest =>
@@ -59,9 +59,20 @@ def forEachRet {α σ ρ : Type} (xs : List α) (body : α → σ → Except Py.
     | .ok (.inr s') => forEachRet rest body s'
 
 /-- `try: body  except <class>: handler` -/
-def tryExcept {α : Type} (body : Except Py.Exc α) (caught : Py.Exc → Bool) (handler : Except Py.Exc α) : Except Py.Exc α :=
+def tryExcept {α ε : Type} (body : Except ε α) (caught : ε → Bool) (handler : Except ε α) : Except ε α :=
   match body with
   | .ok v => .ok v
   | .error e => if caught e then handler else .error e
+
+/-- `[f(x) for x in xs]`, `map(f, xs)`, `{k: f(v) for k, v in d.items()}` (on pairs), left to right -/
+def mapM {α β ε : Type} (f : α → Except ε β) : List α → Except ε (List β)
+  | [] => .ok []
+  | x :: xs =>
+    match f x with
+    | .error e => .error e
+    | .ok y =>
+      match mapM f xs with
+      | .error e => .error e
+      | .ok ys => .ok (y :: ys)
 
 end I18n.PyKit
